@@ -31,7 +31,7 @@ def container_ops(ctx, rule, body, adt, field, allowed, must_have, tkey):
             cl = T.classify(n)
             short = lib.tail(n, 2)
             if cl is None:
-                if n is name and short.split("::")[-1] in ("deref", "deref_mut", "iter", "len", "is_empty", "borrow", "borrow_mut", "as_mut", "as_ref"):
+                if n is name and short.split("::")[-1] in ("deref", "deref_mut", "iter", "len", "is_empty", "borrow", "borrow_mut", "as_mut", "as_ref", "next", "enumerate", "into_iter"):
                     cl = "lookup"
                 else:
                     ctx.fail(rule, "%s:unclassified-callee:%s" % (tkey, short), body.loc(b),
@@ -46,6 +46,8 @@ def container_ops(ctx, rule, body, adt, field, allowed, must_have, tkey):
                          "%s (%s) is not an operation this function may apply to %s.%s" % (sn, cl, adt, field))
             else:
                 ctx.ok(rule, "%s:%s" % (tkey, short), body.loc(b), "%s is %s" % (sn, cl))
+    if "first-match-search" in must_have and "first-match-search" not in classes and lib.loop_first_match(body, adt, field):
+        classes.append("first-match-search")     # explicit `for .. enumerate() { if eq { .. break } }` form
     for m in must_have:
         ctx.check(m in classes, rule, "%s:has-%s" % (tkey, m), "%s:%d" % (body.file, body.line),
                   "%s applies a %s operation to %s.%s" % (tkey, m, adt, field),
